@@ -117,7 +117,7 @@ pub fn run() -> Report {
     let mut cases: Vec<Case> = Vec::new();
     let base = TxP::base();
     // (a) full product of the core shape alphabet
-    let prod_coins: Vec<&str> = if thorough { COINS.iter().map(|c| c.name).collect() } else { vec!["bitcoin", "dogecoin"] };
+    let prod_coins: Vec<&str> = if thorough { COINS.iter().map(|c| c.name).collect() } else { vec!["bitcoin", "dogecoin", "litecoin", "namecoin"] };
     for cn in &prod_coins {
         for verify in [false, true] {
             for (i, p) in product_shapes(&[1, 2]).into_iter().enumerate() {
